@@ -208,6 +208,12 @@ def run(model, col, tier):
               "the source mapping is not built from the very string that is parsed: offsets and line table refer to different texts", PARSER, pa)
     if sm and prs:
         col.check(sm[0].lineno < prs[0].lineno, "R20.2", f"{PARSER}::NslParser.Parse mapping before parsing", "the mapping exists before actions run", None, PARSER, pa)
+    # ... and that string is the caller's: positions are reported to someone who holds the text that was passed in, so the
+    # parameter is not re-bound (comments blanked out, line ends normalised, a BOM dropped) before it is mapped and parsed
+    reb = [n for n in ast.walk(pa) if isinstance(n, ast.Name) and n.id == textp and isinstance(n.ctx, ast.Store)]
+    col.check(not reb, "R20.2", f"{PARSER}::NslParser.Parse maps the caller's text", f"`{textp}` is mapped and parsed as it was passed in",
+              f"`{textp}` is re-bound (line {reb[0].lineno if reb else 0}) before it is mapped / parsed: offsets are offsets into the changed text, but they are reported against the text the caller "
+              "has - every range behind the first change designates other characters", PARSER, reb[0] if reb else pa)
     lex = model.cls("nsl/lexer.py", "NslLexer")
     # ... and the lexer scans that very string: NslLexer.input forwards its argument unchanged
     li = lex.own_method("input")
